@@ -5,6 +5,7 @@ pub mod c06;
 pub mod cc14;
 pub mod numeric;
 pub mod pn;
+pub mod twins;
 #[cfg(feature = "std")]
 pub mod polling;
 
@@ -30,6 +31,9 @@ pub fn run_prop(id: &str, cfg: &Cfg, rep: &mut Report) -> bool {
         "C13" => polling::run_c13(cfg, rep),
         #[cfg(feature = "std")]
         "C14" => polling::run_c14(cfg, rep),
+        "C15" => twins::run_c15(cfg, rep),
+        "C16" => twins::run_c16(cfg, rep),
+        "C17" => twins::run_c17(cfg, rep),
         _ => return false,
     }
     true
